@@ -273,8 +273,8 @@ impl Monitor for C02 {
                     }
                     // the withdrawer actually received what left the reserves
                     for (d, a) in exp_user.iter() {
-                        let got = bal(&post.bal, sender, d) as i128 - bal(&pre.bal, sender, d) as i128;
-                        let want = *a as i128 - if d == lp { burned as i128 } else { 0 };
+                        let got = super::util::sdiff(bal(&post.bal, sender, d), bal(&pre.bal, sender, d));
+                        let want = super::util::si(*a).saturating_sub(if d == lp { super::util::si(burned) } else { 0 });
                         if got != want {
                             return Err(viol("C02.withdraw_pay", format!("withdrawer's {d} balance moved {got}, reserves paid {a}")));
                         }
